@@ -342,6 +342,7 @@ class C01(Prop):
                           "out": [sd.canon_tok(e, x) for x in out.token_list[po:mo]],
                           "size": [[x.tag, x.value] for x in szp.token_list[ps:ms]]})
             po, ps = mo, ms
+        steps.append({"k": "scatter_run", "ins": [sd.canon_tok(e, t) for t in tokens], "status": st.status.name})
         elems = [x for x in out.token_list if not isinstance(x, e.TerminationToken)]
         sizes = [x for x in szp.token_list if not isinstance(x, e.TerminationToken)]
         return elems, sizes
@@ -507,7 +508,7 @@ class C01(Prop):
         if "crash" in o or "hang" in o:
             return ("crash", f"implementation crashed/hung: {str(o)[:600]}")
         for s in o.get("steps", []):
-            if s.get("err") and c["f"] != "raw":
+            if s.get("err") and c["f"] != "raw" and s["k"] != "scatter_run":
                 return ("step-raises", f"{s['k']} step raised {s['err']}")
         if c["f"] == "eng" and o.get("err"):
             return ("workflow-fails", f"scatter/map/gather workflow raised {o['err']} (step statuses {o.get('statuses')})")
@@ -551,6 +552,10 @@ class C01(Prop):
             return None
         subs = []
         for s in o["steps"]:
+            if s["k"] == "scatter_run":
+                subs.append(f"CScatterRun {coq_list([coq_tok(x) for x in s['ins']])} "
+                            f"(Some {STATUS.get(s['status'], 'OtherStatus')})")
+                continue
             if s["k"] == "scatter":
                 if not TAG.match(s["in"][1]):
                     return None
